@@ -306,6 +306,57 @@ func c06Ops(subject string) []c06Op {
 				}
 			})
 		}
+	case "header":
+		H := func(v interface{}) *spec.Header { return v.(*spec.Header) }
+		for _, t := range tricky {
+			t := t
+			add("WithDescription("+strconv.Quote(t)+")", func(v interface{}) { H(v).WithDescription(t) }, setStr("description", t))
+			add("WithPattern("+strconv.Quote(t)+")", func(v interface{}) { H(v).WithPattern(t) }, setStr("pattern", t))
+			add("WithDefault("+strconv.Quote(t)+")", func(v interface{}) { H(v).WithDefault(t) }, func(m map[string]interface{}) { m["default"] = t })
+			add("WithEnum("+strconv.Quote(t)+")", func(v interface{}) { H(v).WithEnum(t, 1.0) }, func(m map[string]interface{}) { m["enum"] = arr(t, num("1")) })
+		}
+		add("Typed(string,date)", func(v interface{}) { H(v).Typed("string", "date") }, func(m map[string]interface{}) { m["type"] = "string"; m["format"] = "date" })
+		add("CollectionOf", func(v interface{}) { H(v).CollectionOf(spec.NewItems().Typed("integer", ""), "csv") }, func(m map[string]interface{}) {
+			m["type"] = "array"
+			m["items"] = obj("type", "integer")
+			m["collectionFormat"] = "csv"
+		})
+		add("WithMaximum(0,true)", func(v interface{}) { H(v).WithMaximum(0, true) }, func(m map[string]interface{}) { m["maximum"] = num("0"); m["exclusiveMaximum"] = true })
+		add("WithMinLength(0)", func(v interface{}) { H(v).WithMinLength(0) }, func(m map[string]interface{}) { m["minLength"] = num("0") })
+		add("UniqueValues", func(v interface{}) { H(v).UniqueValues() }, func(m map[string]interface{}) { m["uniqueItems"] = true })
+		for _, k := range []string{"x-a", "description", "X-B", "type", `x-"q"`} {
+			k := k
+			add(fmt.Sprintf("AddExtension(%q)", k), func(v interface{}) { H(v).AddExtension(k, "v") }, func(m map[string]interface{}) {
+				if lk := strings.ToLower(k); strings.HasPrefix(lk, "x-") {
+					m[lk] = "v"
+				}
+			})
+		}
+	case "items":
+		I := func(v interface{}) *spec.Items { return v.(*spec.Items) }
+		for _, t := range tricky {
+			t := t
+			add("WithPattern("+strconv.Quote(t)+")", func(v interface{}) { I(v).WithPattern(t) }, setStr("pattern", t))
+			add("WithDefault("+strconv.Quote(t)+")", func(v interface{}) { I(v).WithDefault(t) }, func(m map[string]interface{}) { m["default"] = t })
+			add("WithEnum("+strconv.Quote(t)+")", func(v interface{}) { I(v).WithEnum(t) }, func(m map[string]interface{}) { m["enum"] = arr(t) })
+		}
+		add("Typed(string,date)", func(v interface{}) { I(v).Typed("string", "date") }, func(m map[string]interface{}) { m["type"] = "string"; m["format"] = "date" })
+		add("AsNullable", func(v interface{}) { I(v).AsNullable() }, func(m map[string]interface{}) { m["nullable"] = true })
+		add("CollectionOf", func(v interface{}) { I(v).CollectionOf(spec.NewItems().Typed("integer", ""), "pipes") }, func(m map[string]interface{}) {
+			m["type"] = "array"
+			m["items"] = obj("type", "integer")
+			m["collectionFormat"] = "pipes"
+		})
+		add("WithMultipleOf(0)", func(v interface{}) { I(v).WithMultipleOf(0) }, func(m map[string]interface{}) { m["multipleOf"] = num("0") })
+		add("WithMaxItems(0)", func(v interface{}) { I(v).WithMaxItems(0) }, func(m map[string]interface{}) { m["maxItems"] = num("0") })
+		for _, k := range []string{"x-a", "type", "X-B", "$ref"} {
+			k := k
+			add(fmt.Sprintf("AddExtension(%q)", k), func(v interface{}) { I(v).AddExtension(k, "v") }, func(m map[string]interface{}) {
+				if lk := strings.ToLower(k); strings.HasPrefix(lk, "x-") {
+					m[lk] = "v"
+				}
+			})
+		}
 	case "parameter":
 		P := func(v interface{}) *spec.Parameter { return v.(*spec.Parameter) }
 		for _, t := range tricky {
@@ -346,6 +397,10 @@ func c06NewSubject(subject string) interface{} {
 		return spec.NewOperation("")
 	case "parameter":
 		return new(spec.Parameter)
+	case "header":
+		return new(spec.Header)
+	case "items":
+		return new(spec.Items)
 	}
 	panic(subject)
 }
@@ -564,7 +619,7 @@ func c06Run(c *Ctx) {
 		depth = 3
 	}
 	c.Bound("builder_history_length", fmt.Sprint(depth))
-	for _, subject := range []string{"schema", "response", "operation", "parameter"} {
+	for _, subject := range []string{"schema", "response", "operation", "parameter", "header", "items"} {
 		ops := c06Ops(subject)
 		seen := map[string]bool{}
 		frontier := [][]string{{}}
@@ -610,7 +665,7 @@ func c06Run(c *Ctx) {
 func init() {
 	register(&CheckDef{
 		ID: "C06", Build: "instr", Run: c06Run, RunCase: c06RunCase,
-		Rule: "states = (A) C01 documents (cost <= bound, every route) decoded into their type, (B) every assignment of 10 x-order values to 2 and 3 properties, (C) every distinct value reachable by <= bound calls of the builder API of Schema/Response/Operation/Parameter with hostile names (breadth-first, de-duplicated on the encoding); each value is encoded under every explored map iteration order (deviation bound 2); oracles: error or valid JSON, no repeated member, byte-identical across orders, equals the reference model of the builder calls, properties ordered by (x-order, name)",
+		Rule: "states = (A) C01 documents (cost <= bound, every route) decoded into their type, (B) every assignment of 10 x-order values to 2 and 3 properties, (C) every distinct value reachable by <= bound calls of the builder API of Schema/Response/Operation/Parameter/Header/Items with hostile names (breadth-first, de-duplicated on the encoding); each value is encoded under every explored map iteration order (deviation bound 2); oracles: error or valid JSON, no repeated member, byte-identical across orders, equals the reference model of the builder calls, properties ordered by (x-order, name)",
 		Assumptions: []string{
 			"map iteration inside package spec is owned through the rewritten range statements; encoding/json itself sorts map keys",
 			"x-order reference: an integer, a string holding an integer or a number truncated to an integer orders the property; anything else counts as no x-order; ties are ordered by name",
